@@ -562,10 +562,15 @@ func conclude(res *result, wall time.Duration) int {
 			unknown = append(unknown, v)
 		}
 	}
-	// rate caps on known findings: above the cap it is a different problem
+	// rate caps on known findings: above the cap it is a different problem.  The denominators are
+	// tallies, which a worker reports when its shard ends: after a worker death (the shard is resumed
+	// behind the case it died in) or an unfinished shard they are incomplete while the violation
+	// events - the numerators - were streamed as they happened.  Such a run is INCONCLUSIVE anyway
+	// (a note has been recorded); a rate computed from it would be an artefact of the harness.
+	tallyComplete := len(res.inconclusive) == 0 && res.shardsDone >= expectedShards()
 	for i, vs := range known {
 		f := findings[i]
-		if f.MaxRate > 0 && f.RateOf != "" {
+		if f.MaxRate > 0 && f.RateOf != "" && tallyComplete {
 			var den int64
 			for _, k := range strings.Split(f.RateOf, ",") {
 				den += res.tallies[strings.TrimSpace(k)]
